@@ -7,7 +7,7 @@ def run(ctx):
     ctx.build()
     ctx.mc("MC_Network", "MC_Network.cfg")
     ctx.mc("MC_Network", "MC_Network_star.cfg")
-    out = ctx.harness(["load", "--random", "400" if quick else "6000"])
+    out = ctx.harness(["load", "--random", "400" if quick else "40000"])
     scns = common.split_scenarios(out)
     for s, evs in scns:
         deg = {}
